@@ -74,6 +74,10 @@ def run_check(pid, tier='quick', prog=None, out=sys.stdout, write=True):
         mod = importlib.import_module('rules.' + pid)
         ctx = Ctx(pid, tier, prog)
         mod.run(ctx)
+        overlay_notes = []
+        if tier == 'thorough' and not os.environ.get('VERIF_NO_OVERLAYS'):
+            from .run_thorough import run_overlays
+            overlay_notes = run_overlays(pid, mod, Ctx, tier, ctx, out)
         # floors and fixtures
         ctx.order = [r for r in ctx.order if r in ctx.rules]
         for r in ctx.order:
@@ -110,6 +114,19 @@ def run_check(pid, tier='quick', prog=None, out=sys.stdout, write=True):
         print('  rule %s at %s: %s' % (f['rule'], f['where'], f['msg']), file=out)
         rc = 1
 
+    # thorough tier: positive controls (they test the checker, not /repo; never a VIOLATION)
+    control_res = []
+    if tier == 'thorough' and not os.environ.get('VERIF_NO_CONTROLS'):
+        from .controls import run_controls
+        control_res, lost = run_controls(pid)
+        for c in control_res:
+            print('CONTROL %-24s expected=%-6s %s %s' % (c['name'], c['expected'], c['result'], c['detail'][:120]), file=out)
+        if lost and rc == 0:
+            print('ANALYSIS-BROKEN property=%s %d positive control(s) that must be reported were not: %s' % (pid, len(lost), ', '.join(c['name'] for c in lost)), file=out)
+            if write and os.path.exists(evfile):
+                os.remove(evfile)
+            return 2
+
     # evidence
     n_inst = sum(len(ctx.rules[r]['inst']) for r in ctx.order)
     sites = set()
@@ -143,6 +160,8 @@ def run_check(pid, tier='quick', prog=None, out=sys.stdout, write=True):
             'known_findings': sorted(k for k in known if any(f['key'] == k for f in ctx.findings)),
             'not_decided': ctx.not_decided or getattr(mod, 'NOT_DECIDED', []),
             'notes': ctx.notes,
+            'overlays': overlay_notes,
+            'controls': [{k: c[k] for k in ('name', 'expected', 'result', 'detail')} for c in control_res],
         },
         'assumptions': ctx.assumptions + getattr(mod, 'ASSUMPTIONS', []),
         'wall_s': round(time.time() - t0, 2),
